@@ -250,6 +250,9 @@ func c03Orders(c *core.Ctx) {
 }
 
 func c03Run(c *core.Ctx) {
+	if !charPairs(c) {
+		return
+	}
 	c03Orders(c)
 	lengths := []int{1, 2, 5}
 	for trip := 0; trip < 1<<15; trip++ {
